@@ -682,14 +682,11 @@ impl SymbolicBDD {
     fn parse_negation(tokens: &mut TokenReader) -> io::Result<Self> {
         expect(SymbolicBDDToken::Not, tokens)?;
 
-        let sf = Self::parse_simple_sub_formula(tokens);
+        // negation applies to the next simple term; a failed attempt has already consumed
+        // tokens, so re-parsing from there would accept text that is not a formula
+        let sf = Self::parse_simple_sub_formula(tokens)?;
 
-        if let Ok(sf_ok) = sf {
-            Ok(Self::Not(Box::new(sf_ok)))
-        } else {
-            // failover if the next part is not a simple formula
-            Ok(Self::Not(Box::new(Self::parse_sub_formula(tokens)?)))
-        }
+        Ok(Self::Not(Box::new(sf)))
     }
 
     fn parse_parentized_formula(tokens: &mut TokenReader) -> io::Result<Self> {
